@@ -61,19 +61,19 @@ func derivesFromInstanceNameOf(c *Ctx, fn *ssa.Function, v ssa.Value, params map
 func init() {
 	register(&Rule{
 		ID: "R18.1", Props: []string{"C18"}, Engine: "guard (SSA dominance) + flow (provenance)",
-		Text: "in authorizingBlobAccess.{Get,GetFromComposite,Put,FindMissing} every call through the embedded backend is dominated by the nil edge of the matching authorizer's verdict (getAuthorizer for both reads, putAuthorizer, findMissingAuthorizer) computed from GetInstanceName() of the digests of this call; for FindMissing the verdict list is produced from the instance names of every item of the set and the backend is reached only through the exit of a complete range over the verdicts in which any non-nil verdict returns",
+		Text:  "in authorizingBlobAccess.{Get,GetFromComposite,Put,FindMissing} every call through the embedded backend is dominated by the nil edge of the matching authorizer's verdict (getAuthorizer for both reads, putAuthorizer, findMissingAuthorizer) computed from GetInstanceName() of the digests of this call; for FindMissing the verdict list is produced from the instance names of every item of the set and the backend is reached only through the exit of a complete range over the verdicts in which any non-nil verdict returns",
 		Floor: 4, MustExist: true,
 		Run: runR181,
 	})
 	register(&Rule{
 		ID: "R18.2", Props: []string{"C18"}, Engine: "flow (provenance)",
-		Text: "on the denial edge the value returned to the caller is built from the authorizer's own error (possibly through util.StatusWrap*/NewBufferFromError), and no other error is substituted",
+		Text:  "on the denial edge the value returned to the caller is built from the authorizer's own error (possibly through util.StatusWrap*/NewBufferFromError), and no other error is substituted",
 		Floor: 4, MustExist: true,
 		Run: runR182,
 	})
 	register(&Rule{
 		ID: "R18.4", Props: []string{"C18"}, Engine: "guard + flow",
-		Text: "anyAuthorizer.Authorize: an element of the first member's verdict list is overwritten only with the same-position verdict of a later member and only on the edge where that verdict's code is not PERMISSION_DENIED; instance names are forwarded to a later member only on the PERMISSION_DENIED edge; the list returned is that of the first member",
+		Text:  "anyAuthorizer.Authorize: an element of the first member's verdict list is overwritten only with the same-position verdict of a later member and only on the edge where that verdict's code is not PERMISSION_DENIED; instance names are forwarded to a later member only on the PERMISSION_DENIED edge; the list returned is that of the first member",
 		Floor: 3, MustExist: true,
 		Run: runR184,
 	})
